@@ -123,7 +123,7 @@ class C03(Prop):
         return obs
 
     def model_requests(self, case, obs):
-        if "trace" not in obs:
+        if "trace" not in obs or R.layout_family(case["text"]):
             return []
         b = R.block_requests(case, obs["trace"])
         return b + R.text_requests(case, obs["trace"]) if b else []
@@ -178,7 +178,7 @@ class C03(Prop):
         if not case["text"].endswith("\n"):
             acc["no_final_newline"] = acc.get("no_final_newline", 0) + 1
 
-    families = {}
+    families = {"lone_cr": R.fam_lone_cr, "backslash_line": R.fam_backslash_line, "deep_nesting": R.fam_deep_nesting}
 
 
 def _real_conflict(case):
